@@ -129,6 +129,7 @@ impl ISocket for ReqSocket {
       }
     }
 
+    #[cfg(rzmq_verif)] crate::verif::reqrep::point("req_send_checked").await;
     let timeout_opt: Option<Duration> = { self.core.core_state.read().options.sndtimeo };
 
     // === ASYNC OPERATION: Find a Peer (No Lock Held) ===
@@ -162,6 +163,7 @@ impl ISocket for ReqSocket {
     // === ASYNC OPERATION: Send Message (No Lock Held) ===
     match peer.iface.send_multipart(zmtp_frames_to_send).await {
       Ok(()) => {
+        #[cfg(rzmq_verif)] crate::verif::reqrep::point("req_send_pushed").await;
         // === LOCK SCOPE 2: Update State on Success ===
         {
           let mut current_state_guard = self.state.lock();
@@ -198,6 +200,7 @@ impl ISocket for ReqSocket {
       }
     }
 
+    #[cfg(rzmq_verif)] crate::verif::reqrep::point("req_recv_checked").await;
     let notifier = self.reply_available_notifier.clone();
     let received_msg_result: Result<Msg, ZmqError>;
 
@@ -244,6 +247,7 @@ impl ISocket for ReqSocket {
       }
     }
 
+    #[cfg(rzmq_verif)] crate::verif::reqrep::point("req_recv_got").await;
     let mut should_notify = false;
     {
       let mut state_guard = self.state.lock();
@@ -286,8 +290,10 @@ impl ISocket for ReqSocket {
       }
     }
 
+    #[cfg(rzmq_verif)] crate::verif::reqrep::point("req_recvm_checked").await;
     let rcvtimeo_opt: Option<Duration> = self.core.core_state.read().options.rcvtimeo;
     let result = self.ingress_engine.recv_logical_message(rcvtimeo_opt).await;
+    #[cfg(rzmq_verif)] crate::verif::reqrep::point("req_recvm_got").await;
 
     {
       let mut state_guard = self.state.lock();
@@ -371,6 +377,7 @@ impl ISocket for ReqSocket {
       };
       let sender = self.ingress_engine.register_pipe(pipe_read_id, rcvhwm, rcvbatch_count);
       self.pending_pipe_senders.lock().insert(pipe_read_id, sender);
+      #[cfg(rzmq_verif)] crate::verif::reqrep::mark("req_attached");
     } else {
       tracing::warn!(
         handle = self.core.handle,
@@ -425,5 +432,6 @@ impl ISocket for ReqSocket {
 
     self.ingress_engine.deregister_pipe(pipe_read_id);
     self.pending_pipe_senders.lock().remove(&pipe_read_id);
+    #[cfg(rzmq_verif)] crate::verif::reqrep::mark("req_detached");
   }
 }
